@@ -689,16 +689,31 @@ def prng_failure_handled(fn, b, i, x, call):
     def contains(e, target):
         return any(n is target for n in walk(e))
 
+    def neg_edges(op, k):
+        """successor indices (0 = true edge) that a negative result r can take through `r op k`"""
+        samples = [-1, -2, -7, -100, -(2 ** 31)] + [v for v in (k - 1, k, k + 1) if v < 0]
+        ev = {"<": lambda r: r < k, "<=": lambda r: r <= k, ">": lambda r: r > k, ">=": lambda r: r >= k,
+              "==": lambda r: r == k, "!=": lambda r: r != k}[op]
+        out = []
+        if any(ev(r) for r in samples):
+            out.append(0)
+        if any(not ev(r) for r in samples):
+            out.append(1)
+        return out
+
     def fail_branch(c):
-        """index of the successor taken when the call failed, for condition c containing the call"""
+        """indices of the successors that can be taken when the call failed (ANY negative result: PS_FAILURE is -1,
+        a failing entropy source is PS_PLATFORM_FAIL -7), for condition c containing the call"""
         c = strip(c)
         if c is None:
             return None
-        if c.get("k") == "bin" and c["op"] in ("<", "!=") and contains(c["l"], call):
-            return 0
-        if c.get("k") == "bin" and c["op"] in (">=", "==") and contains(c["l"], call):
+        if c.get("k") == "bin" and c["op"] in ("<", "<=", ">", ">=", "==", "!=") and contains(c["l"], call):
             r = strip(c["r"])
-            return 1 if not (c["op"] == "==" and r is not None and r.get("k") == "int" and r["v"] < 0) else 0
+            if r is not None and r.get("k") == "un" and r["op"] == "-" and (strip(r["e"]) or {}).get("k") == "int":
+                return neg_edges(c["op"], -strip(r["e"])["v"])
+            if r is not None and r.get("k") == "int":
+                return neg_edges(c["op"], r["v"])
+            return [0] if c["op"] in ("<", "!=", "<=") else [1]
         if c.get("k") == "bin" and c["op"] in ("&&", "||"):
             return fail_branch(c["l"]) if contains(c["l"], call) else fail_branch(c["r"])
         return None
@@ -735,12 +750,18 @@ def prng_failure_handled(fn, b, i, x, call):
                 tt = bb.get("term")
                 if tt is not None and "c" in tt:
                     c = strip(tt["c"])
-                    if c is not None and c.get("k") == "bin" and c["op"] in ("<", "!=", ">=", "=="):
+                    if c is not None and c.get("k") == "bin" and c["op"] in ("<", "<=", ">", "!=", ">=", "=="):
                         l = strip(c["l"])
                         if l is not None and ((l.get("k") == "var" and l.get("id") == var) or
                                               (l.get("k") == "bin" and l["op"] == "=" and strip(l["l"]).get("id") == var)):
                             cond_block = bb
-                            fail_edge = 0 if c["op"] in ("<", "!=") else 1
+                            r = strip(c["r"])
+                            if r is not None and r.get("k") == "un" and r["op"] == "-" and (strip(r["e"]) or {}).get("k") == "int":
+                                fail_edge = neg_edges(c["op"], -strip(r["e"])["v"])
+                            elif r is not None and r.get("k") == "int":
+                                fail_edge = neg_edges(c["op"], r["v"])
+                            else:
+                                fail_edge = [0] if c["op"] in ("<", "!=", "<=") else [1]
                             break
                 st.extend(cu.succs(fn, bid))
             if cond_block is None:
@@ -753,8 +774,9 @@ def prng_failure_handled(fn, b, i, x, call):
                 return False, "the result of psGetPrngLocked is stored but never tested"
     # from the failure successor no path may reach a success return / fall off the end.  Small path walk that
     # remembers the last constant assigned to each local (rc = PS_FAILURE; goto out; ... out: return rc;)
-    succ = cond_block["succ"][fail_edge].get("b") if fail_edge < len(cond_block["succ"]) else None
-    if succ is None:
+    succs_ = [cond_block["succ"][fe_].get("b") for fe_ in fail_edge if fe_ < len(cond_block["succ"])]
+    succs_ = [s_ for s_ in succs_ if s_ is not None]
+    if not succs_:
         return True, ""
     callvar = None
     for n_ in walk(x):
@@ -763,7 +785,7 @@ def prng_failure_handled(fn, b, i, x, call):
             if l_ is not None and l_.get("k") == "var":
                 callvar = l_.get("id")
     seen = set()
-    stack = [(succ, frozenset())]
+    stack = [(s_, frozenset()) for s_ in succs_]
     while stack:
         bid, env = stack.pop()
         if (bid, env) in seen or len(seen) > 4000:
@@ -802,7 +824,7 @@ def prng_failure_handled(fn, b, i, x, call):
                 else:
                     bad = True
                 if bad:
-                    return False, "psGetPrngLocked failure is only traced: the failure edge continues to the return at line %s" % ln
+                    return False, "a negative psGetPrngLocked result (any of PS_FAILURE -1 ... PS_PLATFORM_FAIL -7) can take an edge that continues to the return at line %s" % ln
                 done = True
                 break
         if done:
